@@ -159,6 +159,7 @@ func kindsOf(ps []m.Packet) []string {
 }
 
 func TestC11(t *testing.T) {
+	defer harness.Uncaught(t)
 	maxLen := 4
 	if harness.Thorough() {
 		maxLen = 6
